@@ -29,6 +29,8 @@ def validate_trace(work, module, trace_file, timeout=900, env_extra=None, cfg=TR
     done = [s for s in res.printed if s.startswith("DONE ")]
     if not done:
         raise vf.Infra("trace validation of %s did not finish:\n%s" % (trace_file, res.out[-3000:]))
+    if not res.no_error:
+        raise vf.Infra("TLC reported an error while validating %s:\n%s" % (trace_file, res.out[-3000:]))
     consumed, total = map(int, done[-1].split()[1:3])
     mm = res.json_lines("MM ")
     if consumed != total:
